@@ -1396,6 +1396,82 @@ namespace
   }
 
   ////////////////////////////////////////////////////////////////////////////
+  // Scenario 6: twoshut
+  //   n=<count> peers connect and send `GET /bye`; the request handler answers by calling disconnect() on the (idle)
+  //   connection, so the library starts ending it (TLS: close_notify).  BEFORE the peers react, http_server::shutdown()
+  //   is called, which reaches the same connections a second time.  Only then do the peers close (TLS: answer the
+  //   close_notify).  Every connection must be signalled as disconnected and released, and the event loop must end.
+  //   RESULT scenario=twoshut n=<n> connected=<n> disconnected=<n> clean=<0|1>
+  int scenario_twoshut(arg_map const& args)
+  {
+    long long n(0);
+    std::string err;
+    if (!get_int(args, "n", n, err))
+      return fail(err);
+    std::atomic<int> connected(0), disconnected(0), handled(0);
+    ServerBox box;
+    if (!box.start([&](http_server_type& srv)
+        {
+          srv.request_received_event(
+            [&handled](http_connection::weak_pointer weak_ptr, http_request const&, std::string const&)
+          {
+            ++handled;
+            http_connection::shared_pointer connection(weak_ptr.lock());
+            if (connection)
+              connection->disconnect();
+          });
+          srv.socket_connected_event([&connected](http_connection::weak_pointer) { ++connected; });
+          srv.socket_disconnected_event([&disconnected](http_connection::weak_pointer) { ++disconnected; });
+        }, 1, err))
+      return fail("server: " + err);
+
+    std::vector<std::unique_ptr<Peer>> peers;
+    int peer_errors(0);
+    for (long long i(0); i < n; ++i)
+    {
+      std::unique_ptr<Peer> peer(new Peer());
+      if (!peer->connect(box.port(), true, 5000, err) ||
+          !peer->write_all("GET /bye HTTP/1.1\r\nHost: localhost\r\n\r\n", 2000))
+      { ++peer_errors; continue; }
+      peers.push_back(std::move(peer));
+    }
+    // let the server handle the requests (its first shutdown of each connection)
+    auto t0(clock_type::now());
+    while (handled.load() < static_cast<int>(peers.size()) && ms_since(t0) < 2000)
+      sleep_ms(5);
+    sleep_ms(50);
+    // the second time: http_server::shutdown() disconnects every connection it still holds
+    box.begin_shutdown();
+    sleep_ms(100);
+    // now the peers react: read what the server sent (TLS: its close_notify) and close (TLS: answer it)
+    for (auto& peer : peers)
+    {
+      std::string junk;
+      auto t1(clock_type::now());
+      while (ms_since(t1) < 300)
+      {
+        Peer::Rd rd(peer->read_some(junk, 300 - ms_since(t1)));
+        if (rd != Peer::Rd::Data)
+          break;
+      }
+      peer->close();
+    }
+    t0 = clock_type::now();
+    while (ms_since(t0) < 2000 && disconnected.load() < connected.load())
+      sleep_ms(10);
+    int c(connected.load()), d(disconnected.load());
+    peers.clear();
+    box.finish(1500);
+
+    std::ostringstream os;
+    os << "RESULT scenario=twoshut n=" << n << " connected=" << c << " disconnected=" << d
+       << " handled=" << handled.load() << " errors=" << peer_errors << tail_keys(box);
+    printf("%s\n", os.str().c_str());
+    fflush(stdout);
+    return 0;
+  }
+
+  ////////////////////////////////////////////////////////////////////////////
   // Scenario 5: abrupt
   //   n=<count> peers connect (TLS: handshake), mode=idle|afterresp (send a
   //   keep-alive GET and read the whole response first), then close the TCP
@@ -1561,6 +1637,8 @@ int main(int argc, char* argv[])
       return scenario_shutrace(args);
     if (scenario == "abrupt")
       return scenario_abrupt(args);
+    if (scenario == "twoshut")
+      return scenario_twoshut(args);
   }
   catch (std::exception const& e)
   {
